@@ -202,68 +202,26 @@ Qed.
 (* ------------------------------------------------------------------ local n_0, ... = e_0, ...
    (since fixes/C07-multi-local-order.diff: the initialisers first, all in the environment of the statement, then the
    names; the exclusion set X of the induction is no longer extended here) *)
-Definition local_vis (flv : N) : list name -> list loc -> list attr -> list exp -> ign -> list action * ign :=
-  fix go (ns : list name) (ls : list loc) (ats : list attr) (es : list exp) (g : ign) {struct es} : list action * ign :=
-  match es with
-  | e :: es' =>
-    let (a1, g1) := tr_exp e None flv g in
-    match ns, ls, ats with
-    | _ :: ns', _ :: ls', _ :: ats' => let (a2, g2) := go ns' ls' ats' es' g1 in (a1 ++ a2, g2)
-    | _, _, _ => (a1 ++ [], g1)
-    end
-  | [] => ([], g)
-  end.
-
 Lemma tr_stat_local ns ls ats es l flv slv g :
   tr_stat (SLocal ns ls ats es l) flv slv g =
-  let (a1, g1) := local_vis flv ns ls ats es g in (a1 ++ local_add_acts (Scope.init_loc ns ls es l) ns ls ats es, g1).
+  let (a1, g1) := thread (fun x g0 => tr_exp x None flv g0) es g in
+  (a1 ++ local_add_acts (Scope.init_loc ns ls es l) ns ls ats es, g1).
 Proof. reflexivity. Qed.
-
-Lemma local_vis_thread flv : forall es ns ls ats g,
-  local_vis flv ns ls ats es g = thread (fun x g0 => tr_exp x None flv g0) (local_visited ns ls ats es) g.
-Proof.
-  induction es as [|e es' IH]; intros ns ls ats g; [reflexivity|].
-  cbn [local_vis local_visited thread]. destruct (tr_exp e None flv g) as [a1 g1].
-  destruct ns as [|n ns']; [reflexivity|]. destruct ls as [|l ls']; [reflexivity|].
-  destruct ats as [|a ats']; [reflexivity|].
-  change ((fix go (ns : list name) (ls : list loc) (ats : list attr) (es : list exp) (g : ign) {struct es}
-             : list action * ign :=
-             match es with
-             | e0 :: es'0 =>
-               let (a2, g2) := tr_exp e0 None flv g in
-               match ns, ls, ats with
-               | _ :: ns'0, _ :: ls'0, _ :: ats'0 => let (a3, g3) := go ns'0 ls'0 ats'0 es'0 g2 in (a2 ++ a3, g3)
-               | _, _, _ => (a2 ++ [], g2)
-               end
-             | [] => ([], g)
-             end) ns' ls' ats' es' g1) with (local_vis flv ns' ls' ats' es' g1).
-  rewrite IH. reflexivity.
-Qed.
-
-(* under the fragment's length conditions every initialiser is visited *)
-Lemma local_visited_all : forall es ns ls ats,
-  length ns = length ls -> length ns = length ats -> (length es <= length ns)%nat -> local_visited ns ls ats es = es.
-Proof.
-  induction es as [|e es' IH]; intros ns ls ats Hl Ha Hle; [reflexivity|].
-  destruct ns as [|n ns']; [cbn in Hle; lia|]. destruct ls as [|l ls']; [discriminate|].
-  destruct ats as [|a ats']; [discriminate|]. cbn [local_visited]. f_equal. apply IH; cbn in *; lia.
-Qed.
 
 Lemma name_mem_cons x n X : name_mem x (n :: X) = name_eqb x n || name_mem x X.
 Proof. reflexivity. Qed.
 
 (* the names are added after the initialisers: nothing is logged *)
 Lemma SSim_local_adds il : forall es ns ls ats seg ens,
-  length ns = length ls -> length ns = length ats -> (length es <= length ns)%nat ->
+  length ns = length ls -> length ns = length ats ->
   SSim (local_add_acts il ns ls ats es) (seg :: ens) ((rev (combine ns ls) ++ seg) :: ens) [].
 Proof.
-  induction es as [|e es' IH]; intros ns ls ats seg ens Hl Ha Hle.
+  induction es as [|e es' IH]; intros ns ls ats seg ens Hl Ha.
   - cbn [local_add_acts]. apply SSim_local_rest; assumption.
-  - destruct ns as [|n ns']; [cbn in Hle; lia|].
+  - destruct ns as [|n ns']; [cbn [local_add_acts combine rev app]; apply SSim_nil|].
     destruct ls as [|l ls']; [discriminate|]. destruct ats as [|a ats']; [discriminate|].
     assert (Hl' : length ns' = length ls') by (cbn [length] in Hl; lia).
     assert (Ha' : length ns' = length ats') by (cbn [length] in Ha; lia).
-    assert (Hle' : (length es' <= length ns')%nat) by (cbn [length] in Hle; lia).
     cbn [local_add_acts combine rev]. rewrite <- app_assoc. cbn [app].
     set (v := mkVar10 n l false (match a with AttrClose => true | _ => false end) (is_func_exp e) (Some e)
                       (local_refer_empty n e) [] il (Scope.tab_of_exp e)).
@@ -273,15 +231,15 @@ Proof.
 Qed.
 
 Lemma local_go_sim flv slv l rest en : forall es ns ls ats g X seg,
-  length ns = length ls -> length ns = length ats -> (length es <= length ns)%nat ->
+  length ns = length ls -> length ns = length ats ->
   Forall ExpOK es -> forallb frag_exp es = true ->
   EQX X (concat (seg :: rest)) en ->
   (forall x, name_mem x X = true -> existsb (mentions_exp x) es = false) ->
   SSim (fst (tr_stat (SLocal ns ls ats es l) flv slv g)) (seg :: rest)
        ((rev (combine ns ls) ++ seg) :: rest) (flat_map (b_exp en flv) es).
 Proof.
-  intros es ns ls ats g X seg Hl Ha Hle Hok Hf Heq Hx.
-  rewrite tr_stat_local, local_vis_thread, (local_visited_all es ns ls ats Hl Ha Hle).
+  intros es ns ls ats g X seg Hl Ha Hok Hf Heq Hx.
+  rewrite tr_stat_local.
   pose proof (thread_exps flv X (seg :: rest) en es g Hok Hf Heq Hx) as H1.
   destruct (thread (fun x g0 => tr_exp x None flv g0) es g) as [a1 g1]. cbn [fst] in *.
   rewrite <- (app_nil_r (flat_map (b_exp en flv) es)).
